@@ -8,11 +8,20 @@ On every data set random histories of
     select(**criteria)          all criterion kinds / argument forms / resets of C02's generator
     x = d.vis | d.flags | d.weights | d.raw_flags | d.timestamps           (acquisition: the indexer is KEPT)
     x[ix2]                      any indexer acquired so far, ints / slices / masks / lists per axis
-    observe                     d.shape, dumps, channels, corr_products, timestamps[:], freqs, sensors, mjd
+    observe                     d.shape, dumps, channels, corr_products, timestamps[:], freqs, sensor.timestamps[:],
+                                numeric / categorical sensors with a stored history, d.az, d.el, d.mjd
 are run through the real classes; the same history is run through the extracted Coq model (wire_1), which returns, for
 every read, the model answer (labels = C-order positions in the stored array, shape, conversion) and the spec answer
 computed element-wise from dumps / channels / corr_products of the selection in force AT ACQUISITION.  The harness
 converts labels to the expected values with the stored arrays and compares exactly.
+
+Time: the dumps of the v1 / v2 / v3 files sit on an IRREGULAR grid (late dumps with the first and last one on the uniform
+grid, dropped dumps, a late last dump; quarter dump periods, so everything is dyadic) and every antenna has time-varying
+sensor histories (piecewise linear with non-zero integer slopes; a categorical one).  The model returns the sensor
+cache's time array and the times at which a per-dump sensor is evaluated under the selection; the spec side is the
+documented conversion of the STORED timestamps of the dumps in `dumps`.  The harness evaluates the stored histories
+at those times over the rationals (np.interp is exact on these histories) and compares exactly; select(timerange=)
+of the model is decided on the stored timestamps as well (C01Observation).
 """
 import logging
 import os
@@ -28,17 +37,29 @@ from props import c02
 RULE = ('per format (v1, v2, v3 HDF5 files through katdal.open; v4 telstate + npy chunk store through VisibilityDataV4) '
         'generated observation models (3-12 dumps, 2-8 channels, 2-3 antennas = 10-21 products, scan / compscan / '
         'target structure, v1 scan groups, duplicate final dump, keepdims, lower / upper sideband, centroid / start '
-        'timestamps, time_offset, v4 chunking and shuffled baseline ordering) with injective labels as stored samples '
+        'timestamps, time_offset, v4 chunking and shuffled baseline ordering; v1 / v2 / v3: dump times on a regular or '
+        'IRREGULAR grid = late interior dumps that pass the readers\' quick uniformity test, dropped dumps, late last '
+        'dump, mixed; per antenna time-varying azimuth / elevation histories with non-zero integer slopes and a '
+        'categorical history) with injective labels as stored samples '
         'x histories of 8-16 operations drawn from {select(**kw) with all criterion kinds / argument forms / resets of '
         'the C02 generator incl. flags= and weights=, acquisition of vis / flags / weights / raw_flags / timestamps '
         'indexers (kept for later), x[ix2] on ANY previously acquired indexer with ints (incl. negative), slices, '
         'boolean masks and integer lists per axis (forms the indexer class supports), observation of shape / dumps / '
-        'channels / corr_products / timestamps / freqs / a numeric sensor / a categorical sensor / mjd}; a case is one '
+        'channels / corr_products / timestamps / freqs / sensor.timestamps / every numeric sensor, d.az, d.el, a '
+        'categorical sensor and d.mjd against the stored histories evaluated at the timestamps of the selected dumps / '
+        'scan_index and target against the unselected arrays}; a case is one '
         'operation in its history; non-trivial when it is a read or observation under a selection that is neither '
         'everything nor empty, or a read through an indexer acquired before a later select(); distinct by (data set, '
         'history prefix)')
 ASSUMPTIONS = ['stored samples are labels (small integers exactly representable in float32 / complex64); timestamps, '
                'dump periods and offsets are dyadic rationals, so every comparison is exact equality',
+               'sensor histories: numeric nodes every half dump period with values = integer multiples of it (integer '
+               'slopes, np.interp exact in float64), categorical events at odd multiples of 1/32 dump period (never on '
+               'a dump boundary), plain string values without per-sensor properties; d.az / d.el / d.mjd are compared '
+               'with the same numpy / katpoint functions applied to the exact expected values; the activity arrays of '
+               'antennas with the same stored history are compared with each other from dump 1 on (the readers fold a '
+               'first dump before a slew into the slew on the reference antenna only)',
+               'v4 timestamps are what TelstateDataSource serves (always regular; C17 owns their computation)',
                'the singleton-dimension convention of the answer (keepdims, v1 always 3-d, dropped axes) is not '
                'compared: answers are brought to the canonical 3-axis shape',
                'second-stage indices are in range and of a form the indexer class supports (LazyIndexer: no negative '
